@@ -30,6 +30,9 @@ import (
 
 const c18Marker = "SECRET-DATABASE-CONTENT"
 
+// planted in everything the mocks report about the node and the cluster
+const c18StatusCanary = "SECRET-NODE-STATUS"
+
 type c18Rec struct {
 	mu    sync.Mutex
 	calls []string
@@ -77,14 +80,17 @@ func (m *c18Store) Remove(ctx context.Context, rn *command.RemoveNodeRequest) er
 	return nil
 }
 func (m *c18Store) Stepdown(wait bool, id string) error { m.r.add("Stepdown"); return nil }
-func (m *c18Store) LeaderAddr() (string, error)         { m.r.add("LeaderAddr"); return "raft:4002", nil }
+func (m *c18Store) LeaderAddr() (string, error) {
+	m.r.add("LeaderAddr")
+	return c18StatusCanary + ":4002", nil
+}
 func (m *c18Store) Leader() (*store.Server, error) {
 	m.r.add("Leader")
-	return &store.Server{ID: "1", Addr: "raft:4002"}, nil
+	return &store.Server{ID: c18StatusCanary, Addr: c18StatusCanary + ":4002"}, nil
 }
 func (m *c18Store) Nodes() ([]*store.Server, error) {
 	m.r.add("Nodes")
-	return []*store.Server{{ID: "1", Addr: "raft:4002"}}, nil
+	return []*store.Server{{ID: c18StatusCanary, Addr: c18StatusCanary + ":4002"}}, nil
 }
 func (m *c18Store) Ready() bool { m.r.add("Ready"); return true }
 func (m *c18Store) Committed(timeout time.Duration) (uint64, error) {
@@ -93,10 +99,10 @@ func (m *c18Store) Committed(timeout time.Duration) (uint64, error) {
 }
 func (m *c18Store) Stats() (map[string]any, error) {
 	m.r.add("Stats")
-	return map[string]any{"marker": c18Marker}, nil
+	return map[string]any{"marker": c18Marker, "status": c18StatusCanary}, nil
 }
-func (m *c18Store) Snapshot(n uint64) error   { m.r.add("Snapshot"); return nil }
-func (m *c18Store) Reap() (int, int, error)   { m.r.add("Reap"); return 0, 0, nil }
+func (m *c18Store) Snapshot(n uint64) error { m.r.add("Snapshot"); return nil }
+func (m *c18Store) Reap() (int, int, error) { m.r.add("Reap"); return 0, 0, nil }
 func (m *c18Store) ReadFrom(r io.Reader) (int64, error) {
 	m.r.add("ReadFrom")
 	n, _ := io.Copy(io.Discard, r)
@@ -108,7 +114,7 @@ type c18Cluster struct{ r *c18Rec }
 
 func (m *c18Cluster) GetNodeMeta(ctx context.Context, a string, r int, t time.Duration) (*cluster.NodeMeta, error) {
 	m.r.add("cluster.GetNodeMeta")
-	return &cluster.NodeMeta{Url: "http://api:4001"}, nil
+	return &cluster.NodeMeta{Url: "http://" + c18StatusCanary + ":4001", Version: c18StatusCanary}, nil
 }
 func (m *c18Cluster) Stats() (map[string]any, error) { m.r.add("cluster.Stats"); return nil, nil }
 func (m *c18Cluster) Execute(ctx context.Context, er *command.ExecuteRequest, addr string, creds *cluster.Credentials, t time.Duration, r int) ([]*command.ExecuteQueryResponse, uint64, error) {
@@ -277,6 +283,7 @@ type c18Resp struct {
 	status  int
 	body    []byte
 	headers string
+	raw     []byte // every byte the server sent
 }
 
 // c18Do sends one request on a fresh TCP connection and reads everything until the server closes.
@@ -312,7 +319,7 @@ func c18Do(t *testing.T, addr string, q c18Req, p c18Pres) c18Resp {
 	if i < 0 {
 		t.Fatalf("%s %s: no header terminator in %q", q.method, target, all)
 	}
-	res := c18Resp{headers: string(all[:i]), body: all[i+4:]}
+	res := c18Resp{headers: string(all[:i]), body: all[i+4:], raw: all}
 	line, _, _ := strings.Cut(res.headers, "\r\n")
 	parts := strings.SplitN(line, " ", 3)
 	if len(parts) < 2 {
@@ -462,6 +469,9 @@ func TestVerifC18HTTP(t *testing.T) {
 				replay := map[string]interface{}{"store": storeText, "request": ep + "?" + q.query, "presentation": p.name, "user": p.user, "password": p.pass, "status": res.status, "body": string(res.body), "store_calls": calls}
 				if authorised {
 					yes++
+					if bytes.Contains(res.raw, []byte(c18Marker)) || bytes.Contains(res.raw, []byte(c18StatusCanary)) {
+						rep.Count("http:authorised-answers-carrying-a-canary") // the canaries do reach authorised callers
+					}
 					if res.status == 401 {
 						rep.Fail("http:"+ep+":refused-although-authorised", fmt.Sprintf("%s with %s(%q,%q) against store %s: authorised by the documented rule, got 401", ep, p.name, p.user, p.pass, storeText), replay)
 					}
@@ -472,6 +482,13 @@ func TestVerifC18HTTP(t *testing.T) {
 					}
 					if len(calls) > 0 {
 						rep.Fail("http:"+ep+":action-performed-when-denied", fmt.Sprintf("%s with %s(%q,%q) against store %s: not authorised, yet the node called %v", ep, p.name, p.user, p.pass, storeText, calls), replay)
+					}
+					// disclosure: nothing the store, the database or the cluster reported may appear anywhere
+					// in the bytes of a refused request (headers included)
+					for _, canary := range []string{c18Marker, c18StatusCanary} {
+						if bytes.Contains(res.raw, []byte(canary)) {
+							rep.Fail("http:"+ep+":content-disclosed-when-denied", fmt.Sprintf("%s with %s(%q,%q) against store %s: not authorised, yet the response contains %s", ep, p.name, p.user, p.pass, storeText, canary), replay)
+						}
 					}
 					if len(res.body) > 0 || bytes.Contains(res.body, []byte(c18Marker)) {
 						rep.Fail("http:"+ep+":body-returned-when-denied", fmt.Sprintf("%s with %s(%q,%q) against store %s: not authorised, %d body bytes returned", ep, p.name, p.user, p.pass, storeText, len(res.body)), replay)
